@@ -1,4 +1,4 @@
-From Coq Require Import ZArith List Bool String Ascii Lia.
+From Coq Require Import ZArith List Bool String Ascii Lia Permutation.
 From KV Require Import Base.Sx Base.Str Gen.Generated Model.Telstate.
 Import ListNotations.
 Open Scope string_scope.
@@ -76,6 +76,40 @@ Proof.
     + rewrite IH. split; intros H q; [intros [<-|Hq]; auto|intros Hq; apply H; right; exact Hq].
 Qed.
 
+(* ---------- strings ---------- *)
+Lemma slen_app (a b : string) : String.length (a ++ b) = (String.length a + String.length b)%nat.
+Proof. induction a as [|c a IH]; simpl; [reflexivity|]. rewrite IH. reflexivity. Qed.
+Lemma sapp_assoc (a b c : string) : ((a ++ b) ++ c)%string = (a ++ (b ++ c))%string.
+Proof. induction a as [|x a IH]; simpl; [reflexivity|]. rewrite IH. reflexivity. Qed.
+Lemma substring_all (s : string) : substring 0 (String.length s) s = s.
+Proof. induction s as [|c s IH]; simpl; [reflexivity|]. rewrite IH. reflexivity. Qed.
+Lemma take_app (p t : string) : take (String.length p) (p ++ t) = p.
+Proof.
+  unfold take. induction p as [|c p IH]; simpl.
+  - destruct t; reflexivity.
+  - rewrite IH. reflexivity.
+Qed.
+Lemma drop_app (p t : string) : drop (String.length p) (p ++ t) = t.
+Proof.
+  unfold drop. induction p as [|c p IH]; simpl.
+  - rewrite Nat.sub_0_r. apply substring_all.
+  - exact IH.
+Qed.
+Lemma prefix_app (p t : string) : String.prefix p (p ++ t) = true.
+Proof. induction p as [|c p IH]; simpl; [destruct t; reflexivity|]. destruct (ascii_dec c c); [exact IH|contradiction]. Qed.
+Lemma prefix_split (p k : string) : String.prefix p k = true -> k = (p ++ drop (String.length p) k)%string.
+Proof.
+  revert k. induction p as [|c p IH]; intros k H.
+  - simpl. unfold drop. rewrite Nat.sub_0_r, substring_all. reflexivity.
+  - destruct k as [|d k]; simpl in H; [discriminate|]. destruct (ascii_dec c d) as [->|]; [|discriminate].
+    simpl. f_equal. rewrite (IH k H) at 1. f_equal.
+Qed.
+(* key[:len(key) - len(name)] of key = p ++ name is p *)
+Lemma take_prefix (p n : string) : take (String.length (p ++ n) - String.length n) (p ++ n) = p.
+Proof. rewrite slen_app. replace (String.length p + String.length n - String.length n)%nat with (String.length p) by lia. apply take_app. Qed.
+Lemma app_inj_l (p q n : string) : (p ++ n)%string = (q ++ n)%string -> p = q.
+Proof. intros H. rewrite <- (take_prefix p n), <- (take_prefix q n), H. reflexivity. Qed.
+
 (* ---------- the sensor table ---------- *)
 Lemma find_filter_ne (t : table) m n : String.eqb m n = false ->
   find (fun p => String.eqb (fst p) n) (filter (fun p => negb (String.eqb (fst p) m)) t)
@@ -142,33 +176,72 @@ Proof.
   rewrite rfind_filter_ne by exact E. reflexivity.
 Qed.
 
+(* the generated pieces of the loop, as the pinned code has them *)
+Lemma scan_id ps : scan_prefixes ps = ps.
+Proof. reflexivity. Qed.
+Lemma is_sensor_key_mut ps all e : is_sensor_key_gen sn_type_through_view ps all e = e_mut e.
+Proof. unfold is_sensor_key_gen, sn_type_through_view, type_holds, sn_key_type, sn_key_type_eq. cbn. destruct (e_mut e); reflexivity. Qed.
+
+(* a key of rank r is its r-th prefix followed by its shortened name *)
+Lemma first_match ps k : forall r, key_rank ps k = Some r ->
+  exists p, nth_error ps r = Some p /\ k = (p ++ shorten_key ps k)%string /\ String.prefix p k = true.
+Proof.
+  induction ps as [|q ps IH]; intros r H; simpl in H; [discriminate|].
+  simpl shorten_key. destruct (String.prefix q k) eqn:E.
+  - injection H as <-. exists q. simpl. repeat split; auto. apply prefix_split; exact E.
+  - destruct (key_rank ps k) as [r'|] eqn:K; [|discriminate]. simpl in H. injection H as <-.
+    destruct (IH r' eq_refl) as (p & A & B & C). exists p. simpl. auto.
+Qed.
+
+Lemma take_sh k p sh : k = (p ++ sh)%string -> take (String.length k - String.length sh) k = p.
+Proof. intros ->. apply take_prefix. Qed.
+
+(* the rank AS THE CODE COMPUTES IT, prefixes.index(key[:len(key) - len(sensor_name)]), is the index of the first
+   prefix (in view order) that fits the key *)
+Lemma rank_in_code_ok ps k : forall r, key_rank ps k = Some r -> rank_in_code ps k (shorten_key ps k) = Some r.
+Proof.
+  unfold rank_in_code. induction ps as [|q ps IH]; intros r H; simpl in H; [discriminate|].
+  simpl shorten_key. destruct (String.prefix q k) eqn:E.
+  - injection H as <-. rewrite (take_sh k q _ (prefix_split q k E)). simpl. rewrite String.eqb_refl. reflexivity.
+  - destruct (key_rank ps k) as [r'|] eqn:K; [|discriminate]. simpl in H. injection H as <-.
+    destruct (first_match ps k r' K) as (p & A & B & C).
+    specialize (IH r' eq_refl). rewrite (take_sh k p _ B) in *. simpl.
+    destruct (String.eqb_spec p q) as [->|_]; [congruence|]. rewrite IH. reflexivity.
+Qed.
+
+Definition better (acc : option (nat * string)) (r : nat) (k : string) : option (nat * string) :=
+  match acc with
+  | Some (r0, k0) => if Nat.leb r r0 then Some (r, k) else Some (r0, k0)
+  | None => Some (r, k)
+  end.
 Definition bstep (ps : list string) (n : string) (acc : option (nat * string)) (e : entry) : option (nat * string) :=
   if owns ps n e then
     match key_rank ps (e_key e) with Some r => better acc r (e_key e) | None => acc end
   else acc.
 
-Lemma better_some acc r k : exists v, better acc r k = Some v.
-Proof. unfold better. destruct acc as [[r0 k0]|]; [destruct (Nat.leb r r0)|]; eauto. Qed.
-
-Lemma sensor_table_gen_r ps n : n <> "" -> forall st t acc, rtbl_get t n = acc ->
-  rtbl_get (fold_left (sensor_step ps) st t) n = fold_left (bstep ps n) st acc.
-Proof.
-  intros Hn. induction st as [|e st IH]; intros t acc H; simpl; [exact H|].
-  apply IH. unfold sensor_step, bstep, owns. destruct (e_mut e); simpl; [|exact H].
-  destruct (String.eqb_spec (shorten_key ps (e_key e)) "") as [E|E].
-  - rewrite E. destruct (String.eqb_spec "" n) as [<-|_]; [contradiction|exact H].
-  - destruct (key_rank ps (e_key e)) as [r|].
-    + destruct (better_some (rtbl_get t (shorten_key ps (e_key e))) r (e_key e)) as [v Hv]. rewrite Hv.
-      rewrite rtbl_get_set. destruct (String.eqb_spec (shorten_key ps (e_key e)) n) as [En|En].
-      * rewrite <- Hv, En, H. reflexivity.
-      * exact H.
-    + destruct (String.eqb (shorten_key ps (e_key e)) n); exact H.
-Qed.
-
 Lemma shorten_rank ps k : shorten_key ps k <> "" -> exists r, key_rank ps k = Some r.
 Proof.
-  induction ps as [|p ps IH]; simpl; [intros H; contradiction|].
+  induction ps as [|p ps IH]; simpl; [intros H; exfalso; apply H; reflexivity|].
   destruct (String.prefix p k); [eauto|]. intros H. destruct (IH H) as [r Hr]. rewrite Hr. simpl. eauto.
+Qed.
+
+(* what the loop of the code leaves under name n = the scan that keeps an owner of minimal rank *)
+Lemma sensor_table_gen_r ps all n : n <> "" -> forall st t acc, rtbl_get t n = acc ->
+  rtbl_get (fold_left (sensor_step ps all) st t) n = fold_left (bstep ps n) st acc.
+Proof.
+  intros Hn. induction st as [|e st IH]; intros t acc H; simpl; [exact H|].
+  apply IH. unfold sensor_step, sensor_step_gen, bstep, owns. rewrite is_sensor_key_mut, scan_id.
+  destruct (e_mut e); simpl; [|exact H].
+  destruct (String.eqb_spec (shorten_key ps (e_key e)) "") as [E|E].
+  - rewrite E. destruct (String.eqb_spec "" n) as [<-|_]; [contradiction|exact H].
+  - destruct (shorten_rank ps (e_key e) E) as [r Hr]. rewrite (rank_in_code_ok _ _ _ Hr), Hr.
+    destruct (String.eqb_spec (shorten_key ps (e_key e)) n) as [En|En].
+    + rewrite En. subst acc. unfold better, sn_replaces, sn_default_rank.
+      destruct (rtbl_get t n) as [[r0 k0]|] eqn:G.
+      * destruct (Nat.leb r r0); [rewrite rtbl_get_set, String.eqb_refl; reflexivity|exact G].
+      * rewrite Nat.leb_refl. rewrite rtbl_get_set, String.eqb_refl. reflexivity.
+    + apply String.eqb_neq in En.
+      destruct (sn_replaces r _); [rewrite rtbl_get_set, En; exact H|exact H].
 Qed.
 
 (* invariant of the scan: acc is an owner of minimal rank among those seen *)
@@ -231,8 +304,155 @@ Lemma sensor_most_specific ps st n : n <> "" ->
       (forall e, In e st -> owns ps n e = true -> exists r', key_rank ps (e_key e) = Some r' /\ (r <= r')%nat)
   end.
 Proof.
-  intros Hn. unfold sensor_table. rewrite (sensor_table_gen_r ps n Hn st [] None eq_refl).
+  intros Hn. unfold sensor_table. rewrite (sensor_table_gen_r ps st n Hn st [] None eq_refl).
   apply (best_inv_fold ps n Hn st [] None). simpl. intros e [].
+Qed.
+
+(* ---------- the sensor table against the namespace-by-namespace reading of the property ---------- *)
+Lemma find_key_some st k e : find_key st k = Some e -> In e st /\ e_key e = k.
+Proof. unfold find_key. intros H. apply find_some in H. destruct H as [A B]. apply String.eqb_eq in B. auto. Qed.
+
+Lemma find_key_nodup st e : NoDup (map e_key st) -> In e st -> find_key st (e_key e) = Some e.
+Proof.
+  unfold find_key. induction st as [|x st IH]; intros N H; [destruct H|]. simpl.
+  inversion N as [|? ? Hnotin N']; subst.
+  destruct (String.eqb_spec (e_key x) (e_key e)) as [E|E].
+  - destruct H as [->|H]; [reflexivity|]. exfalso. apply Hnotin. rewrite E. apply in_map. exact H.
+  - destruct H as [->|H]; [contradiction|]. apply IH; auto.
+Qed.
+
+Lemma owner_key ps n e : n <> "" -> owns ps n e = true ->
+  exists r p, key_rank ps (e_key e) = Some r /\ nth_error ps r = Some p /\ e_key e = (p ++ n)%string /\ e_mut e = true.
+Proof.
+  intros Hn O. unfold owns in O. apply andb_true_iff in O. destruct O as [M S]. apply String.eqb_eq in S.
+  destruct (shorten_rank ps (e_key e)) as [r Hr]; [rewrite S; exact Hn|].
+  destruct (first_match ps (e_key e) r Hr) as (p & A & B & C). exists r, p. rewrite S in B. auto.
+Qed.
+
+Lemma key_rank_le ps k : forall i p, nth_error ps i = Some p -> String.prefix p k = true ->
+  exists r, key_rank ps k = Some r /\ (r <= i)%nat.
+Proof.
+  induction ps as [|q ps IH]; intros [|i] p H P; simpl in H; try discriminate.
+  - injection H as ->. simpl. rewrite P. exists 0%nat. split; [reflexivity|lia].
+  - simpl. destruct (String.prefix q k); [exists 0%nat; split; [reflexivity|lia]|].
+    destruct (IH i p H P) as (r & A & B). rewrite A. exists (S r). split; [reflexivity|lia].
+Qed.
+
+(* namespace p defines sensor n: the key p ++ n exists and is mutable *)
+Definition defines (st : store) (n p : string) : Prop := exists e, find_key st (p ++ n)%string = Some e /\ e_mut e = true.
+
+Lemma spec_sensor_some st n : forall ps k, spec_sensor st ps n = Some k ->
+  exists i p e, nth_error ps i = Some p /\ find_key st (p ++ n)%string = Some e /\ e_mut e = true /\ k = e_key e
+    /\ forall j q, (j < i)%nat -> nth_error ps j = Some q -> ~ defines st n q.
+Proof.
+  induction ps as [|q ps IH]; intros k H; simpl in H; [discriminate|].
+  destruct (find_key st (q ++ n)%string) as [e|] eqn:F; [destruct (e_mut e) eqn:M|].
+  - injection H as <-. exists 0%nat, q, e. repeat split; auto. intros j x Hj. lia.
+  - destruct (IH k H) as (i & p & e' & A & B & C & D & E). exists (S i), p, e'. repeat split; auto.
+    intros [|j] x Hj Hx; simpl in Hx.
+    + injection Hx as <-. intros (e2 & F2 & M2). congruence.
+    + apply (E j x); [lia|exact Hx].
+  - destruct (IH k H) as (i & p & e' & A & B & C & D & E). exists (S i), p, e'. repeat split; auto.
+    intros [|j] x Hj Hx; simpl in Hx.
+    + injection Hx as <-. intros (e2 & F2 & M2). congruence.
+    + apply (E j x); [lia|exact Hx].
+Qed.
+
+Lemma spec_sensor_none st n : forall ps, spec_sensor st ps n = None -> forall p, In p ps -> ~ defines st n p.
+Proof.
+  induction ps as [|q ps IH]; intros H p Hp; [destruct Hp|]. simpl in H.
+  destruct (find_key st (q ++ n)%string) as [e|] eqn:F; [destruct (e_mut e) eqn:M|]; try discriminate;
+    (destruct Hp as [<-|Hp]; [intros (e2 & F2 & M2); congruence|exact (IH H p Hp)]).
+Qed.
+
+(* no aliasing for the name n: every mutable key <namespace><n> shortens to n (its first fitting prefix is that
+   namespace and not a more specific one that happens to fit too, as for n = "s_foo" under "cb_" with a view that
+   also has "cb_s_") *)
+Definition canonical (ps : list string) (st : store) (n : string) : Prop :=
+  forall p e, In p ps -> find_key st (p ++ n)%string = Some e -> e_mut e = true -> shorten_key ps (p ++ n)%string = n.
+
+Lemma sensor_eq_spec ps st n : n <> "" -> NoDup (map e_key st) -> canonical ps st n ->
+  sensor_key ps st n = spec_sensor st ps n.
+Proof.
+  intros Hn Nd Hc. unfold sensor_key. pose proof (sensor_most_specific ps st n Hn) as H.
+  destruct (rtbl_get (sensor_table ps st) n) as [[r k]|]; simpl.
+  - destruct H as [(e0 & In0 & O0 & K0 & R0) Hmin].
+    destruct (owner_key ps n e0 Hn O0) as (r1 & p0 & A & B & C & M0).
+    rewrite K0 in A, C. assert (r1 = r) by congruence. subst r1.
+    assert (D0 : defines st n p0).
+    { exists e0. split; [|exact M0]. rewrite <- C, <- K0. apply find_key_nodup; auto. }
+    destruct (spec_sensor st ps n) as [k'|] eqn:S.
+    + destruct (spec_sensor_some _ _ _ _ S) as (i & p & e & Pi & F & M & -> & Hfirst).
+      destruct (find_key_some _ _ _ F) as [Ine Ke].
+      assert (O : owns ps n e = true).
+      { unfold owns. rewrite M, Ke, (Hc p e (nth_error_In _ _ Pi) F M). simpl. apply String.eqb_refl. }
+      destruct (Hmin e Ine O) as (r' & R' & Le).
+      destruct (key_rank_le ps (e_key e) i p Pi) as (r'' & R'' & Le''). { rewrite Ke. apply prefix_app. }
+      assert (r'' = r') by congruence. subst r''.
+      assert (~ (r < i)%nat) by (intros Lt; exact (Hfirst r p0 Lt B D0)).
+      assert (r = i) by lia. subst i. f_equal. rewrite Ke, C. rewrite B in Pi. injection Pi as <-. reflexivity.
+    + exfalso. exact (spec_sensor_none _ _ _ S p0 (nth_error_In _ _ B) D0).
+  - destruct (spec_sensor st ps n) as [k'|] eqn:S; [|reflexivity]. exfalso.
+    destruct (spec_sensor_some _ _ _ _ S) as (i & p & e & Pi & F & M & _ & _).
+    destruct (find_key_some _ _ _ F) as [Ine Ke].
+    assert (O : owns ps n e = true).
+    { unfold owns. rewrite M, Ke, (Hc p e (nth_error_In _ _ Pi) F M). simpl. apply String.eqb_refl. }
+    rewrite (H e Ine) in O. discriminate.
+Qed.
+
+(* the order in which telstate.keys() delivers the keys does not matter *)
+Lemma sensor_order_independent ps st st' n : n <> "" -> Permutation st st' ->
+  sensor_key ps st n = sensor_key ps st' n.
+Proof.
+  intros Hn P. unfold sensor_key.
+  pose proof (sensor_most_specific ps st n Hn) as H. pose proof (sensor_most_specific ps st' n Hn) as H'.
+  destruct (rtbl_get (sensor_table ps st) n) as [[r k]|], (rtbl_get (sensor_table ps st') n) as [[r' k']|]; simpl.
+  - destruct H as [(e0 & In0 & O0 & K0 & R0) Hmin]. destruct H' as [(e1 & In1 & O1 & K1 & R1) Hmin'].
+    destruct (Hmin' e0 (Permutation_in _ P In0) O0) as (x & X & Lx).
+    destruct (Hmin e1 (Permutation_in _ (Permutation_sym P) In1) O1) as (y & Y & Ly).
+    rewrite K0 in X. rewrite K1 in Y. assert (x = r) by congruence. assert (y = r') by congruence. subst x y.
+    assert (r = r') by lia. subst r'.
+    destruct (owner_key ps n e0 Hn O0) as (a & p & A1 & A2 & A3 & _).
+    destruct (owner_key ps n e1 Hn O1) as (b & q & B1 & B2 & B3 & _).
+    rewrite K0 in A1, A3. rewrite K1 in B1, B3. assert (a = r) by congruence. assert (b = r) by congruence. subst a b.
+    rewrite A2 in B2. injection B2 as <-. rewrite A3, B3. reflexivity.
+  - destruct H as [(e0 & In0 & O0 & _) _]. rewrite (H' e0 (Permutation_in _ P In0)) in O0. discriminate.
+  - destruct H' as [(e1 & In1 & O1 & _) _]. rewrite (H e1 (Permutation_in _ (Permutation_sym P) In1)) in O1. discriminate.
+  - reflexivity.
+Qed.
+
+(* the NAMES of the sensors: exactly the non-empty shortened names of the mutable keys (an immutable key, a key that
+   equals a prefix, a key under no prefix of the view never shows up as a sensor) *)
+Lemma rtbl_get_names (t : rtable) n : In n (map fst t) <-> rtbl_get t n <> None.
+Proof.
+  unfold rtbl_get. induction t as [|[a b] t IH]; simpl.
+  - split; [intros []|intros H; apply H; reflexivity].
+  - destruct (String.eqb_spec a n) as [->|E]; simpl.
+    + split; [discriminate|auto].
+    + rewrite <- IH. split; [intros [H|H]; [contradiction|exact H]|auto].
+Qed.
+
+Lemma empty_name_absent ps all : forall st t, rtbl_get t "" = None -> rtbl_get (fold_left (sensor_step ps all) st t) "" = None.
+Proof.
+  induction st as [|e st IH]; intros t H; simpl; [exact H|]. apply IH. unfold sensor_step, sensor_step_gen.
+  destruct (is_sensor_key_gen _ ps all e); [|exact H].
+  destruct (String.eqb_spec (shorten_key (scan_prefixes ps) (e_key e)) "") as [E|E]; [exact H|].
+  destruct (rank_in_code ps (e_key e) _); [|exact H].
+  destruct (sn_replaces _ _); [|exact H]. rewrite rtbl_get_set. apply String.eqb_neq in E. rewrite E. exact H.
+Qed.
+
+Lemma sensor_names_iff ps st n :
+  In n (sensor_names ps st) <-> n <> "" /\ exists e, In e st /\ owns ps n e = true.
+Proof.
+  unfold sensor_names. rewrite rtbl_get_names. split.
+  - intros H. destruct (String.eqb_spec n "") as [->|Hn].
+    + exfalso. apply H. unfold sensor_table. apply empty_name_absent. reflexivity.
+    + split; [exact Hn|]. pose proof (sensor_most_specific ps st n Hn) as M.
+      destruct (rtbl_get (sensor_table ps st) n) as [[r k]|]; [|contradiction].
+      destruct M as [(e & A & B & _) _]. eauto.
+  - intros [Hn (e & Ie & O)]. pose proof (sensor_most_specific ps st n Hn) as M.
+    destruct (rtbl_get (sensor_table ps st) n) as [[r k]|]; [discriminate|].
+    rewrite (M e Ie) in O. discriminate.
 Qed.
 
 (* ---------- id resolution ---------- *)
@@ -263,7 +483,8 @@ Lemma telstate_keys :
   l0_cbid_key = "capture_block_id" /\ l0_stream_key = "stream_name" /\ l0_type_key = "stream_type"
   /\ ts_inherit_key = "inherit" /\ fl_type_key = "stream_type" /\ fl_src_key = "src_streams"
   /\ fl_archived_key = "sdp_archived_streams" /\ ts_sep = "_"
-  /\ ds_chunk_info_key = "chunk_info" /\ fl_chunk_info_key = "chunk_info" /\ ds_dumps_array = "correlator_data".
+  /\ ds_chunk_info_key = "chunk_info" /\ fl_chunk_info_key = "chunk_info" /\ ds_dumps_array = "correlator_data"
+  /\ ci_prefix_key = "chunk_name".
 Proof. repeat split; reflexivity. Qed.
 
 (* ---------- flag stream upgrade ---------- *)
@@ -274,22 +495,63 @@ Proof.
   apply Z.eqb_eq in Hxy. subst y. f_equal. apply IH. rewrite Hl. exact H.
 Qed.
 
-Lemma hd_rev_snoc {A} (ms : list A) (f : A) :
-  rev ms ++ [f] = match rev ms with [] => [f] | x :: t => x :: t ++ [f] end.
-Proof. destruct (rev ms); reflexivity. Qed.
+Lemma statuses_cons stream rest f fs :
+  statuses stream rest (f :: fs)
+  = (match candidate_status stream rest f with Some r => [r] | None => [] end) ++ statuses stream rest fs.
+Proof. reflexivity. Qed.
 
 Lemma flags_upgrade_rule stream : forall archived cur,
   upgrade_flags stream cur archived = spec_upgrade stream cur archived.
 Proof.
   induction archived as [|f fs IH]; intros cur; [reflexivity|].
-  simpl upgrade_flags. unfold spec_upgrade. simpl filter.
-  destruct (is_flag_source stream f) eqn:S.
-  - simpl forallb. destruct (zs_eqb (f_rest f) (c_rest cur)) eqn:Z; simpl.
-    + rewrite IH. unfold spec_upgrade. simpl c_rest. rewrite <- (zs_eqb_eq _ _ Z).
-      destruct (forallb (fun f0 => zs_eqb (f_rest f0) (f_rest f)) (filter (is_flag_source stream) fs)); [|reflexivity].
-      rewrite hd_rev_snoc. destruct (rev (filter (is_flag_source stream) fs)); reflexivity.
-    + reflexivity.
-  - rewrite IH. reflexivity.
+  unfold spec_upgrade. rewrite statuses_cons. cbn [upgrade_flags]. unfold candidate_status, type_is_flags.
+  destruct (f_type f) as [t|]; [destruct (String.eqb t fl_type)|];
+    try (cbn [app]; rewrite IH; reflexivity).
+  destruct (f_src f) as [src|]; [|reflexivity].
+  destruct (mem_string stream src); [|cbn [app]; rewrite IH; reflexivity].
+  destruct (f_info f) as [ci|]; [|reflexivity].
+  destruct (zs_eqb (c_rest ci) (c_rest cur)) eqn:Z; [|reflexivity].
+  rewrite IH. unfold spec_upgrade. rewrite (zs_eqb_eq _ _ Z). cbn [app find is_err].
+  destruct (find is_err (statuses stream (c_rest cur) fs)); [reflexivity|].
+  cbn [rev]. destruct (rev (statuses stream (c_rest cur) fs)); reflexivity.
+Qed.
+
+(* the only errors of the upgrade: 1 (incompatible shape, ValueError), 2 (a flags stream without sources or chunk
+   info, KeyError) *)
+Lemma upgrade_err stream : forall archived cur e, upgrade_flags stream cur archived = Err e -> e = 1%Z \/ e = 2%Z.
+Proof.
+  induction archived as [|f fs IH]; intros cur e H; cbn [upgrade_flags] in H; [discriminate|].
+  destruct (type_is_flags f); [|eauto].
+  destruct (f_src f) as [src|]; [|injection H as <-; auto].
+  destruct (mem_string stream src); [|eauto].
+  destruct (f_info f) as [ci|]; [|injection H as <-; auto].
+  destruct (zs_eqb (c_rest ci) (c_rest cur)); [eauto|injection H as <-; auto].
+Qed.
+
+(* what must NOT change: archived streams of another type, or whose sources do not include the opened stream, leave
+   its flags alone, wherever they stand in the list and whatever else they lack *)
+Lemma upgrade_ignores_others stream cur : forall archived,
+  (forall f, In f archived -> candidate_status stream (c_rest cur) f = None) ->
+  upgrade_flags stream cur archived = Ok cur.
+Proof.
+  intros archived H. rewrite flags_upgrade_rule. unfold spec_upgrade.
+  assert (E : statuses stream (c_rest cur) archived = []).
+  { induction archived as [|f fs IH]; [reflexivity|]. rewrite statuses_cons, (H f (or_introl eq_refl)).
+    apply IH. intros g Hg. apply H. right. exact Hg. }
+  rewrite E. reflexivity.
+Qed.
+
+(* a replacement never changes the channel/baseline shape *)
+Lemma upgrade_keeps_shape stream : forall archived cur c,
+  upgrade_flags stream cur archived = Ok c -> c_rest c = c_rest cur.
+Proof.
+  induction archived as [|f fs IH]; intros cur c H; cbn [upgrade_flags] in H; [injection H as <-; reflexivity|].
+  destruct (type_is_flags f); [|eauto].
+  destruct (f_src f) as [src|]; [|discriminate].
+  destruct (mem_string stream src); [|eauto].
+  destruct (f_info f) as [ci|]; [|discriminate].
+  destruct (zs_eqb (c_rest ci) (c_rest cur)) eqn:Z; [|discriminate].
+  rewrite (IH _ _ H). apply zs_eqb_eq. exact Z.
 Qed.
 
 (* ---------- alignment ---------- *)
@@ -317,12 +579,38 @@ Proof. unfold align_chunk_info. apply map_length. Qed.
 
 (* ---------- which archived streams count ---------- *)
 Lemma flag_source_iff stream f :
-  is_flag_source stream f = true <-> f_type f = Some "sdp.flags" /\ In stream (f_src f).
+  is_flag_source stream f = true <-> f_type f = Some "sdp.flags" /\ exists l, f_src f = Some l /\ In stream l.
 Proof.
-  unfold is_flag_source, fl_type, mem_string. rewrite andb_true_iff, existsb_exists. split.
-  - intros [Ht (y & Hy & E)]. apply String.eqb_eq in E. subst y. split; [|exact Hy].
-    destruct (f_type f) as [t|]; [|discriminate]. apply String.eqb_eq in Ht. subst t. reflexivity.
-  - intros [Ht Hin]. rewrite Ht. split; [reflexivity|]. exists stream. split; [exact Hin|apply String.eqb_refl].
+  unfold is_flag_source, type_is_flags, fl_type, mem_string. rewrite andb_true_iff. split.
+  - intros [Ht Hs]. destruct (f_type f) as [t|]; [|discriminate]. apply String.eqb_eq in Ht. subst t.
+    split; [reflexivity|]. destruct (f_src f) as [l|]; [|discriminate]. exists l. split; [reflexivity|].
+    apply existsb_exists in Hs. destruct Hs as (y & Hy & E). apply String.eqb_eq in E. subst y. exact Hy.
+  - intros [Ht (l & Hl & Hin)]. rewrite Ht, Hl. split; [reflexivity|].
+    apply existsb_exists. exists stream. split; [exact Hin|apply String.eqb_refl].
+Qed.
+
+(* a stream takes part in the upgrade (replaces, or is an error) iff it is of type sdp.flags and either lacks its
+   sources or names the opened stream among them *)
+Lemma candidate_ignored_iff stream rest f :
+  candidate_status stream rest f = None <->
+  f_type f <> Some "sdp.flags" \/ exists l, f_src f = Some l /\ ~ In stream l.
+Proof.
+  unfold candidate_status, fl_type. destruct (f_type f) as [t|].
+  - destruct (String.eqb_spec t "sdp.flags") as [->|Ht].
+    + destruct (f_src f) as [l|].
+      * destruct (mem_string stream l) eqn:M.
+        -- split.
+           ++ destruct (f_info f) as [ci|]; [destruct (zs_eqb (c_rest ci) rest)|]; discriminate.
+           ++ intros [H|(l' & Hl & Hn)]; [contradiction|]. injection Hl as <-. exfalso. apply Hn.
+              unfold mem_string in M. apply existsb_exists in M. destruct M as (y & Hy & E).
+              apply String.eqb_eq in E. subst y. exact Hy.
+        -- split; [|reflexivity]. intros _. right. exists l. split; [reflexivity|]. intros Hin.
+           assert (mem_string stream l = true).
+           { unfold mem_string. apply existsb_exists. exists stream. split; [exact Hin|apply String.eqb_refl]. }
+           congruence.
+      * split; [discriminate|]. intros [H|(l' & Hl & _)]; [contradiction|discriminate].
+    + split; [|reflexivity]. intros _. left. intros H. injection H as ->. contradiction.
+  - split; [|reflexivity]. intros _. left. discriminate.
 Qed.
 
 (* ---------- every way of opening ---------- *)
@@ -363,7 +651,7 @@ Lemma span_however_opened u stream cur archived : (0 <= c_dumps cur)%Z ->
          then spec_upgrade stream cur archived else Ok cur) with
   | Err e => Err e
   | Ok c => let n := Z.max (c_dumps cur) (c_dumps c) in
-            Ok (mkOpened (match t with Some k => k | None => n end) (if s then Some (n, c_id c) else None))
+            Ok (mkOpened (match t with Some k => k | None => n end) (if s then Some (n, c_id c, c_from c) else None))
   end.
 Proof.
   intros H s t Hst. rewrite open_spec by exact H. unfold spec_open, upgrade_on. cbn [m_store m_ts m_upgrade].
@@ -376,7 +664,7 @@ Lemma meta_explicit_ignores_streams u k stream cur archived :
 Proof. reflexivity. Qed.
 
 (* ---------- the whole path from the telstate ---------- *)
-Definition dumps_nonneg (vals : vtable) : Prop := forall d rest, In (AInfo d rest) vals -> (0 <= d)%Z.
+Definition dumps_nonneg (vals : vtable) : Prop := forall d rest hp, In (AInfo d rest hp) vals -> (0 <= d)%Z.
 
 Lemma aget_in st vals ps k id v : aget st vals ps k = Some (id, v) -> In v vals.
 Proof.
@@ -389,6 +677,14 @@ Lemma fstream_of_with_spec st vals base cb s :
   fstream_of_with view_capture_stream_on st vals base cb s = fstream_of_with spec_prefixes_on st vals base cb s.
 Proof. unfold fstream_of_with. destruct (chain_of st vals s); [|reflexivity]. rewrite prefix_order_on. reflexivity. Qed.
 
+Lemma info_of_dumps st vals ps k c : dumps_nonneg vals -> info_of st vals ps k = Some (Some c) -> (0 <= c_dumps c)%Z.
+Proof.
+  intros Hv. unfold info_of. destruct (aget st vals ps k) as [[id [x|x|d rest hp|]]|] eqn:E; try discriminate.
+  assert (0 <= d)%Z by (apply (Hv d rest hp); eapply aget_in; eauto).
+  destruct hp; [intros H0; injection H0 as <-; exact H|].
+  destruct (aget st vals ps ci_prefix_key) as [[nid v]|]; [|discriminate]. intros H0; injection H0 as <-; exact H.
+Qed.
+
 Lemma open_telstate_spec m st vals cb stream : dumps_nonneg vals ->
   open_telstate m st vals cb stream = spec_open_telstate m st vals cb stream.
 Proof.
@@ -397,11 +693,10 @@ Proof.
   rewrite prefix_order_on.
   destruct (negb (check_stream_type (astr (aget st vals (spec_prefixes_on [""] cb streams) l0_type_key)))); [reflexivity|].
   destruct (ds_reads_chunk_info (m_store m) (has_ts m)).
-  - destruct (aget st vals (spec_prefixes_on [""] cb streams) ds_chunk_info_key) as [[id [x|x|d rest|]]|] eqn:E;
-      try reflexivity.
+  - destruct (info_of st vals (spec_prefixes_on [""] cb streams) ds_chunk_info_key) as [[cur|]|] eqn:E; try reflexivity.
     rewrite (map_ext _ _ (fstream_of_with_spec st vals (spec_prefixes_on [""] cb streams) cb)).
     destruct (if upgrade_on m then _ else _) as [fs|]; [|reflexivity].
-    apply open_spec. cbn [c_dumps]. apply (Hv d rest). eapply aget_in; eauto.
+    apply open_spec. eapply info_of_dumps; eauto.
   - apply open_spec. cbn [c_dumps]. lia.
 Qed.
 
@@ -423,15 +718,250 @@ Proof. repeat split; reflexivity. Qed.
 (* a telstate with an L0 stream of 3 dumps and an archived flag stream of 5: opened as metadata only it has 5
    timestamps, opened with data 5 dumps of the flag stream's flags; with the upgrade disabled 3 *)
 Definition ex_vals : vtable :=
-  [AStr "cb"; AStr "l0"; AStr "sdp.vis"; AInfo 3 [4; 12]%Z; AStrs ["l0"; "fl"]; AStr "sdp.flags"; AStrs ["l0"];
-   AInfo 5 [4; 12]%Z].
+  [AStr "cb"; AStr "l0"; AStr "sdp.vis"; AInfo 3 [4; 12]%Z true; AStrs ["l0"; "fl"]; AStr "sdp.flags"; AStrs ["l0"];
+   AInfo 5 [4; 12]%Z false; AStr "cb-fl"].
 Definition ex_store : store :=
   [mkEntry "capture_block_id" false 0; mkEntry "stream_name" false 1; mkEntry "l0_stream_type" false 2;
    mkEntry "cb_l0_chunk_info" false 3; mkEntry "sdp_archived_streams" false 4; mkEntry "fl_stream_type" false 5;
-   mkEntry "fl_src_streams" false 6; mkEntry "cb_fl_chunk_info" false 7].
+   mkEntry "fl_src_streams" false 6; mkEntry "cb_fl_chunk_info" false 7; mkEntry "cb_fl_chunk_name" false 8].
 Example nonvacuous_open :
   open_url (mkMode false None None) ex_store ex_vals None None None None = Ok ("cb", "l0", mkOpened 5 None)
-  /\ open_url (mkMode true None None) ex_store ex_vals None None None None = Ok ("cb", "l0", mkOpened 5 (Some (5, 7)%Z))
+  /\ open_url (mkMode true None None) ex_store ex_vals None None None None = Ok ("cb", "l0", mkOpened 5 (Some (5, 7, 8)%Z))
   /\ open_url (mkMode false (Some false) None) ex_store ex_vals None None None None = Ok ("cb", "l0", mkOpened 3 None)
   /\ open_url (mkMode true None None) ex_store ex_vals None None (Some "fl") None = Err 3.
+Proof. repeat split; vm_compute; reflexivity. Qed.
+
+(* ---------- unreadable sources, entry point by entry point ---------- *)
+Lemma ods_id {A} (r : res A) : ods r = r.
+Proof.
+  destruct r as [a|e]; [reflexivity|]. unfold ods, ods_catches, ods_raises. cbn [existsb orb].
+  change (exn_code "DataSourceNotFound") with 5%Z.
+  destruct (Z.eqb_spec 5 e) as [<-|_]; reflexivity.
+Qed.
+
+Lemma open_how_spec h scheme l m st vals kwcb urlcb kwsn urlsn : dumps_nonneg vals ->
+  open_how h scheme l m st vals kwcb urlcb kwsn urlsn = spec_open_how h scheme l m st vals kwcb urlcb kwsn urlsn.
+Proof.
+  intros Hv. unfold open_how, open_how_with, spec_open_how.
+  assert (F : match load_source scheme l with
+              | Err e => Err e
+              | Ok _ => open_url m st vals kwcb urlcb kwsn urlsn
+              end =
+              if String.eqb scheme "file" then
+                match l with
+                | Loaded => spec_open_url m st vals kwcb urlcb kwsn urlsn
+                | Raises x => if (String.eqb x "OSError" || String.eqb x "RdbParseError")%bool then Err 5 else Err (exn_code x)
+                end
+              else if mem_string scheme ["redis"; "http"; "https"] then Err 9 else Err 5).
+  { unfold load_source, src_file_scheme, src_schemes, src_load_caught, src_load_raises, src_unknown_raises.
+    destruct (String.eqb scheme "file") eqn:E.
+    - destruct l as [|x]; [apply open_url_spec; exact Hv|].
+      unfold mem_string. cbn [existsb]. rewrite orb_false_r.
+      destruct (String.eqb x "OSError" || String.eqb x "RdbParseError")%bool; reflexivity.
+    - unfold mem_string. cbn [existsb]. rewrite E. cbn [orb].
+      destruct (String.eqb scheme "redis" || (String.eqb scheme "http" || (String.eqb scheme "https" || false)))%bool; reflexivity. }
+  destruct h as [| |[|] [|]]; unfold open_is_v4; cbn [orb]; rewrite ?ods_id; try exact F. reflexivity.
+Qed.
+
+(* an unreadable file is "not found" through every entry point, whatever else is asked for *)
+Lemma unreadable_not_found h l m st vals kwcb urlcb kwsn urlsn :
+  (l = Raises "OSError" \/ l = Raises "RdbParseError") ->
+  (forall e s, h = HOpen e s -> (e || s)%bool = true) ->
+  open_how h "file" l m st vals kwcb urlcb kwsn urlsn = Err 5.
+Proof.
+  intros Hl Hh. unfold open_how, open_how_with.
+  assert (F : load_source "file" l = Err 5) by (destruct Hl as [->| ->]; reflexivity).
+  rewrite F. destruct h as [| |e s]; [reflexivity|reflexivity|].
+  unfold open_is_v4. rewrite (Hh e s eq_refl). reflexivity.
+Qed.
+
+Lemma unknown_scheme_not_found h scheme l m st vals kwcb urlcb kwsn urlsn :
+  ~ In scheme ["file"; "redis"; "http"; "https"] ->
+  (forall e s, h = HOpen e s -> (e || s)%bool = true) ->
+  open_how h scheme l m st vals kwcb urlcb kwsn urlsn = Err 5.
+Proof.
+  intros Hs Hh. unfold open_how, open_how_with.
+  assert (F : load_source scheme l = Err 5).
+  { unfold load_source, src_file_scheme, src_schemes, src_unknown_raises.
+    destruct (String.eqb_spec scheme "file") as [->|_]; [exfalso; apply Hs; left; reflexivity|].
+    destruct (mem_string scheme ["file"; "redis"; "http"; "https"]) eqn:M; [|reflexivity].
+    exfalso. apply Hs. unfold mem_string in M. apply existsb_exists in M. destruct M as (y & Hy & E).
+    apply String.eqb_eq in E. subst y. exact Hy. }
+  rewrite F. destruct h as [| |e s]; [reflexivity|reflexivity|].
+  unfold open_is_v4. rewrite (Hh e s eq_refl). reflexivity.
+Qed.
+
+(* what must NOT change: a source that can be read is never reported as not found, and open_data_source /
+   katdal.open hand on exactly what from_url gives (value or error class) *)
+Lemma open_source_err m stream cur ar e : open_source m stream cur ar = Err e -> (e = 1 \/ e = 2 \/ e = 4)%Z.
+Proof.
+  unfold open_source. destruct (ds_reads_chunk_info (m_store m) (has_ts m)).
+  - destruct (upgrade_on m).
+    + destruct (upgrade_flags stream cur ar) as [c|x] eqn:U; [discriminate|].
+      intros H. injection H as <-. destruct (upgrade_err _ _ _ _ U); auto.
+    + discriminate.
+  - destruct (m_store m); [intros H; injection H as <-; auto|].
+    destruct (m_ts m); [discriminate|intros H; injection H as <-; auto].
+Qed.
+
+Lemma open_url_err m st vals kwcb urlcb kwsn urlsn e :
+  open_url m st vals kwcb urlcb kwsn urlsn = Err e -> (e = 1 \/ e = 2 \/ e = 3 \/ e = 4 \/ e = 9)%Z.
+Proof.
+  unfold open_url, open_url_with.
+  destruct (resolve_id kwcb urlcb _) as [cb|]; [|intros H; injection H as <-; auto].
+  destruct (resolve_id kwsn urlsn _) as [sn|]; [|intros H; injection H as <-; auto].
+  destruct (open_telstate m st vals cb sn) as [o|x] eqn:O; [discriminate|].
+  intros H. injection H as <-. revert O. unfold open_telstate, open_telstate_with.
+  destruct (chain_of st vals sn) as [streams|]; [|intros H; injection H as <-; auto].
+  destruct (negb _); [intros H; injection H as <-; auto|].
+  destruct (ds_reads_chunk_info _ _).
+  - destruct (info_of st vals _ ds_chunk_info_key) as [[cur|]|]; try (intros H; injection H as <-; auto).
+    destruct (if upgrade_on m then _ else _) as [fs|]; [|intros H; injection H as <-; auto].
+    intros H. destruct (open_source_err _ _ _ _ _ H) as [?|[?|?]]; auto.
+  - intros H. destruct (open_source_err _ _ _ _ _ H) as [?|[?|?]]; auto.
+Qed.
+
+Lemma readable_never_not_found h m st vals kwcb urlcb kwsn urlsn :
+  (forall e s, h = HOpen e s -> (e || s)%bool = true) ->
+  open_how h "file" Loaded m st vals kwcb urlcb kwsn urlsn = open_url m st vals kwcb urlcb kwsn urlsn
+  /\ open_how h "file" Loaded m st vals kwcb urlcb kwsn urlsn <> Err 5.
+Proof.
+  intros Hh.
+  assert (E : open_how h "file" Loaded m st vals kwcb urlcb kwsn urlsn = open_url m st vals kwcb urlcb kwsn urlsn).
+  { unfold open_how, open_how_with. change (load_source "file" Loaded) with (@Ok unit tt).
+    destruct h as [| |e s]; rewrite ?ods_id; try reflexivity.
+    unfold open_is_v4. rewrite (Hh e s eq_refl). reflexivity. }
+  split; [exact E|]. rewrite E. intros H. destruct (open_url_err _ _ _ _ _ _ _ _ H) as [?|[?|[?|[?|?]]]]; discriminate.
+Qed.
+
+(* ---------- _relative_view ---------- *)
+Lemma relative_view_order ps name : ps <> [] -> relative_view ps name = Some (spec_relative_view ps name).
+Proof.
+  intros Hne. unfold relative_view, spec_relative_view, rv_exclusive, rv_reversed, view.
+  destruct (rev ps) as [|last before] eqn:R.
+  - exfalso. apply Hne. rewrite <- (rev_involutive ps), R. reflexivity.
+  - f_equal. rewrite (fold_cons (fun p => ((p ++ name) ++ sep)%string) before).
+    rewrite <- (rev_involutive ps), R. cbn [rev]. rewrite map_app, map_rev. reflexivity.
+Qed.
+
+(* an attribute k of stream [name] seen through the relative view = the attribute <name>_k seen through the view
+   itself: it comes from the most specific namespace of the opened stream that defines it *)
+Lemma relative_lookup st name k : forall ps,
+  lookup st (spec_relative_view ps name) k = lookup st ps (name ++ sep ++ k)%string.
+Proof.
+  unfold spec_relative_view. induction ps as [|p ps IH]; [reflexivity|]. cbn [map lookup].
+  rewrite !sapp_assoc, IH. reflexivity.
+Qed.
+
+Example nonvacuous_sources :
+  open_how (HOpen true false) "file" (Raises "RdbParseError") (mkMode true None None) ex_store ex_vals None None None None = Err 5
+  /\ open_how HFromUrl "ftp" Loaded (mkMode true None None) ex_store ex_vals None None None None = Err 5
+  /\ open_how HOds "file" Loaded (mkMode true None None) ex_store ex_vals None None (Some "fl") None = Err 3
+  /\ open_how (HOpen true false) "file" Loaded (mkMode false None None) ex_store ex_vals None None None None
+     = Ok ("cb", "l0", mkOpened 5 None)
+  /\ relative_view ["cb_l0_"; "cb_"; "l0_"; ""] "cal" = Some ["cb_l0_cal_"; "cb_cal_"; "l0_cal_"; "cal_"].
+Proof. repeat split; vm_compute; reflexivity. Qed.
+
+(* sensors: the six namespaces of a stream inheriting base; "foo" defined in the stream namespace and (later in key
+   order) in the capture block namespace: the capture block wins although its key is shorter and sorts first;
+   an immutable key and a key equal to a prefix are no sensors *)
+Example nonvacuous_sensors :
+  let ps := spec_prefixes "cb" ["s"; "base"] in
+  let st := [mkEntry "cb_" true 9; mkEntry "cb_foo" true 1; mkEntry "cb_s_bar" false 2; mkEntry "s_foo" true 3; mkEntry "zz" true 4] in
+  sensor_key ps st "foo" = Some "cb_foo" /\ spec_sensor st ps "foo" = Some "cb_foo"
+  /\ sensor_key ps st "bar" = None /\ sensor_key ps st "zz" = Some "zz" /\ sensor_names ps st = ["zz"; "foo"]
+  /\ rank_in_code ps "cb_foo" "foo" = Some 2%nat.
+Proof. repeat split; vm_compute; reflexivity. Qed.
+
+(* flag streams: a matching one with the wrong shape after a good one is still an error; a flags stream without its
+   sources is a KeyError; streams of other types are ignored *)
+Example nonvacuous_flags :
+  let good := mkF (Some "sdp.flags") (Some ["l0"]) (Some (mkC 7 5 [4; 12]%Z 7)) in
+  let bad := mkF (Some "sdp.flags") (Some ["x"; "l0"]) (Some (mkC 8 5 [4; 8]%Z 8)) in
+  let nosrc := mkF (Some "sdp.flags") None (Some (mkC 9 5 [4; 12]%Z 9)) in
+  let other := mkF (Some "sdp.cal") None None in
+  upgrade_flags "l0" (mkC 3 3 [4; 12]%Z 3) [other; good; other] = Ok (mkC 7 5 [4; 12]%Z 7)
+  /\ upgrade_flags "l0" (mkC 3 3 [4; 12]%Z 3) [good; bad] = Err 1
+  /\ upgrade_flags "l0" (mkC 3 3 [4; 12]%Z 3) [nosrc; bad] = Err 2
+  /\ upgrade_flags "l0" (mkC 3 3 [4; 12]%Z 3) [other] = Ok (mkC 3 3 [4; 12]%Z 3).
+Proof. repeat split; vm_compute; reflexivity. Qed.
+
+(* F-C18x-1 (repaired): the pinned loop asked the VIEW for the type of the full key, which resolves it through the
+   prefixes once more: with an attribute cb_s_foo (immutable) the sensor s_foo was taken for immutable ("cb_" ++
+   "s_foo" exists) and dropped, and through an exclusive view no key was a sensor at all *)
+Lemma sensor_type_refuted_before_fix :
+  let ps := spec_prefixes "cb" ["s"] in
+  let st := [mkEntry "cb_s_foo" false 1; mkEntry "s_foo" true 2] in
+  spec_sensor st ps "foo" = Some "s_foo" /\ sensor_key_viewtyped ps st "foo" = None /\ sensor_key ps st "foo" = Some "s_foo"
+  /\ sensor_key_viewtyped ["cb_s_"; "cb_"; "s_"] [mkEntry "s_foo" true 2] "foo" = None
+  /\ sensor_key ["cb_s_"; "cb_"; "s_"] [mkEntry "s_foo" true 2] "foo" = Some "s_foo".
+Proof. repeat split; vm_compute; reflexivity. Qed.
+
+(* ---------- laws ---------- *)
+(* the archived list can be processed piecewise: the outcome after a ++ b is the outcome of b started from the
+   outcome of a (an error stops everything) *)
+Lemma upgrade_composes stream : forall a b cur,
+  upgrade_flags stream cur (a ++ b) =
+  match upgrade_flags stream cur a with Ok c => upgrade_flags stream c b | Err e => Err e end.
+Proof.
+  induction a as [|f fs IH]; intros b cur; [reflexivity|]. cbn [app upgrade_flags].
+  destruct (type_is_flags f); [|apply IH].
+  destruct (f_src f) as [src|]; [|reflexivity].
+  destruct (mem_string stream src); [|apply IH].
+  destruct (f_info f) as [ci|]; [|reflexivity].
+  destruct (zs_eqb (c_rest ci) (c_rest cur)); [apply IH|reflexivity].
+Qed.
+
+(* stacking views = falling back: what the first prefixes do not define is looked up in the rest (a candidate's
+   attribute that none of its own namespaces defines is the opened stream's) *)
+Lemma lookup_app st k : forall ps1 ps2,
+  lookup st (ps1 ++ ps2) k = match lookup st ps1 k with Some v => Some v | None => lookup st ps2 k end.
+Proof.
+  induction ps1 as [|p ps1 IH]; intros ps2; [reflexivity|]. cbn [app lookup].
+  destruct (find_key st (p ++ k)%string); [reflexivity|apply IH].
+Qed.
+
+(* upgrade_flags=False: the archived streams are not even looked at - no error, own flags, own number of dumps *)
+Lemma upgrade_disabled s t stream cur archived : (0 <= c_dumps cur)%Z -> s = true \/ t = None ->
+  open_source (mkMode s (Some false) t) stream cur archived =
+  Ok (mkOpened (match t with Some k => k | None => c_dumps cur end)
+               (if s then Some (c_dumps cur, c_id cur, c_from cur) else None)).
+Proof.
+  intros H Hst. rewrite (span_however_opened (Some false) stream cur archived H s t Hst). cbv zeta.
+  rewrite Z.max_id. reflexivity.
+Qed.
+
+(* aligning twice changes nothing *)
+Lemma zmax_nonneg l : (0 <= zmax_list l)%Z.
+Proof. unfold zmax_list. induction l as [|x l IH]; cbn [fold_right]; lia. Qed.
+Lemma zmax_const m l : l <> [] -> (0 <= m)%Z -> (forall x, In x l -> x = m) -> zmax_list l = m.
+Proof.
+  unfold zmax_list. induction l as [|x l IH]; intros Hne Hm Hall; [contradiction|]. cbn [fold_right].
+  rewrite (Hall x (or_introl eq_refl)). destruct l as [|y l].
+  - cbn [fold_right]. lia.
+  - rewrite IH; [lia|discriminate|exact Hm|intros z Hz; apply Hall; right; exact Hz].
+Qed.
+Lemma align_idempotent arrays : align_chunk_info (align_chunk_info arrays) = align_chunk_info arrays.
+Proof.
+  destruct arrays as [|a0 rest]; [reflexivity|]. set (arrays := a0 :: rest).
+  unfold align_chunk_info at 1. set (al := align_chunk_info arrays).
+  assert (Hd : forall a, In a al -> dumps_of a = zmax_list (map dumps_of arrays)).
+  { intros a Ha. unfold al, align_chunk_info in Ha. apply in_map_iff in Ha. destruct Ha as (b & <- & Hb).
+    apply (align_spans_longer arrays b Hb). }
+  assert (Hm : zmax_list (map dumps_of al) = zmax_list (map dumps_of arrays)).
+  { apply zmax_const.
+    - unfold al, align_chunk_info, arrays. discriminate.
+    - apply zmax_nonneg.
+    - intros x Hx. apply in_map_iff in Hx. destruct Hx as (a & <- & Ha). apply Hd. exact Ha. }
+  rewrite Hm. rewrite <- (map_id al) at 2. apply map_ext_in. intros a Ha. unfold align_one.
+  rewrite (Hd a Ha), Z.sub_diag. cbn [Z.to_nat repeat]. apply app_nil_r.
+Qed.
+
+Example nonvacuous_laws :
+  upgrade_flags "l0" (mkC 3 3 [4]%Z 3) ([mkF (Some "sdp.flags") (Some ["l0"]) (Some (mkC 7 5 [4]%Z 7))] ++
+                                        [mkF (Some "sdp.flags") (Some ["l0"]) (Some (mkC 8 2 [4]%Z 8))]) = Ok (mkC 8 2 [4]%Z 8)
+  /\ lookup [mkEntry "b_k" false 2] (["a_"] ++ ["b_"]) "k" = Some 2%Z
+  /\ open_source (mkMode true (Some false) None) "l0" (mkC 3 3 [4]%Z 3) [mkF (Some "sdp.flags") (Some ["l0"]) (Some (mkC 8 2 [9]%Z 8))]
+     = Ok (mkOpened 3 (Some (3, 3, 3)%Z))
+  /\ align_chunk_info (align_chunk_info [[2; 2]; [3]; []]%Z) = [[2; 2]; [3; 1]; [1; 1; 1; 1]]%Z.
 Proof. repeat split; vm_compute; reflexivity. Qed.
